@@ -118,6 +118,7 @@ type LockSpec struct {
 var LockKinds = []string{
 	"v1-std", "v1-2of3", "v1-1of2-timelock", "v1-unknown-algo", "v1-zero-sig", // v1-style (uc)
 	"pk", "thresh-1of2-opaque", "thresh-2of3-nested", "hash", "above-and-pk", "after-and-pk", "anyone", "thresh-hash-or-pk",
+	"v1-2of70-high-keys", // v1-style too (appended so that the indices of the kinds above stay what stored cases use)
 }
 
 // NumV1Kinds is the number of leading entries of LockKinds that are v1-style.
@@ -154,6 +155,19 @@ func MakeLock(s LockSpec) Lock {
 	case "v1-zero-sig":
 		// no signature required: nothing but the double-spend rules stands between two uses of such a parent
 		return mkUC(types.UnlockConditions{PublicKeys: []types.UnlockKey{k1.UnlockKey()}, SignaturesRequired: 0})
+	case "v1-2of70-high-keys":
+		// a large multisig: 70 keys, two required, and the two keys the pool can sign with sit beyond position 64
+		// (k1 at 65, k2 or k3 at 68); the rest are well-formed keys nobody holds
+		keys := make([]types.UnlockKey, 70)
+		for i := range keys {
+			keys[i] = types.PublicKey(types.HashBytes([]byte{0x70, byte(i), byte(s.K1), byte(s.K2)})).UnlockKey()
+		}
+		second := k2
+		if s.K1 == s.K2 {
+			second = k3
+		}
+		keys[65], keys[68] = k1.UnlockKey(), second.UnlockKey()
+		return mkUC(types.UnlockConditions{PublicKeys: keys, SignaturesRequired: 2})
 	case "pk":
 		return Lock{Kind: kind, Policy: types.PolicyPublicKey(k1), V2OK: true}
 	case "thresh-1of2-opaque":
@@ -479,6 +493,46 @@ func SignV1(cs consensus.State, txn *types.Transaction, partial bool) {
 		sg := s.priv.SignHash(h)
 		sig.Signature = sg[:]
 	}
+}
+
+// ResignV1Slot recomputes signature si of txn with the key its PublicKeyIndex names in the parent's unlock conditions
+// (as revealed by the input or revision that has this parent); false if the pool does not hold that key.
+func ResignV1Slot(cs consensus.State, txn *types.Transaction, si int) bool {
+	sig := &txn.Signatures[si]
+	var uc *types.UnlockConditions
+	for i := range txn.SiacoinInputs {
+		if types.Hash256(txn.SiacoinInputs[i].ParentID) == sig.ParentID {
+			uc = &txn.SiacoinInputs[i].UnlockConditions
+		}
+	}
+	for i := range txn.SiafundInputs {
+		if types.Hash256(txn.SiafundInputs[i].ParentID) == sig.ParentID {
+			uc = &txn.SiafundInputs[i].UnlockConditions
+		}
+	}
+	for i := range txn.FileContractRevisions {
+		if types.Hash256(txn.FileContractRevisions[i].ParentID) == sig.ParentID {
+			uc = &txn.FileContractRevisions[i].UnlockConditions
+		}
+	}
+	if uc == nil || sig.PublicKeyIndex >= uint64(len(uc.PublicKeys)) || uc.PublicKeys[sig.PublicKeyIndex].Algorithm != types.SpecifierEd25519 {
+		return false
+	}
+	var pk types.PublicKey
+	copy(pk[:], uc.PublicKeys[sig.PublicKeyIndex].Key)
+	priv, ok := PrivFor(pk)
+	if !ok {
+		return false
+	}
+	var h types.Hash256
+	if sig.CoveredFields.WholeTransaction {
+		h = cs.WholeSigHash(*txn, sig.ParentID, sig.PublicKeyIndex, sig.Timelock, nil)
+	} else {
+		h = cs.PartialSigHash(*txn, sig.CoveredFields)
+	}
+	sg := priv.SignHash(h)
+	sig.Signature = sg[:]
+	return true
 }
 
 // FullCoverage lists every index of every populated field except signatures.
